@@ -739,6 +739,15 @@ class Flow:
             b = nnf(('rel', Rel.make(argv[0], q[-2:], argv[1])))
             return [s.set(rkey, Poly.const(1 if b[1] else 0) if b[0] == 'const' else Poly.atom(('bool', b)))]
 
+        if q in ('std::swap',) and len(args) == 2 and \
+                all((tu.sd(a).get('ct') or '').replace('const ', '').startswith(SMART) for a in args):
+            la, lb = self.loc_of(args[0], s, fr), self.loc_of(args[1], s, fr)
+            if la is None or lb is None:
+                return [s.approx('smart pointer swap at %s is not modelled' % loc)]
+            s = self.assign(args[0], argv[1], s, fr, None, n)
+            s = self.assign(args[1], argv[0], s, fr, None, n)
+            return [s.set(rkey, Poly.atom(('void',)))]
+
         # ---- std::make_unique<T>(args...) / std::make_shared<T>(args...)  ==  smart pointer to  new T(args...)
         if q in ('std::make_unique', 'std::make_shared') and not is_ctor:
             T = _first_targ(sd.get('ct', ''))
@@ -794,8 +803,14 @@ class Flow:
                 if cell is not None:
                     s = self.assign(obj, Poly.const(0), s, fr, None, n)
                 return [s.set(rkey, cur)]
-            if name in ('swap',):
-                return [s.approx('smart pointer swap at %s is not modelled' % loc)]
+            if name == 'swap' and len(args) == 1:
+                # a.swap(b): the two cells exchange their pointers (nothing is destroyed)
+                other = self.loc_of(args[0], s, fr)
+                if cell is None or other is None:
+                    return [s.approx('smart pointer swap at %s is not modelled' % loc)]
+                s = self.assign(obj, argv[0], s, fr, None, n)
+                s = self.assign(args[0], cur, s, fr, None, n)
+                return [s.set(rkey, Poly.atom(('void',)))]
 
         objv = None
         if obj is not None:
